@@ -214,7 +214,36 @@ def is_payload(t, param, kind):
     return False
 
 
-def results_by_kind(body, lib, kinds_of, max_steps=4000):
+def expand_defaults(terms):
+    """`opt.unwrap_or(d)` as the values it can be: the payload when the option is known to be Some, `d` when it is known to be
+    None, either otherwise."""
+    from .analysis import strip_through
+    out = set()
+    for t in terms:
+        if t[0] == "call" and t[1] in ("std::option::Option::<T>::unwrap_or", "std::result::Result::<T, E>::unwrap_or") and len(t[2]) == 2:
+            some, none = set(), False
+            unknown = False
+            for a in t[2][0]:
+                if a[0] == "agg" and a[1] in ("std::option::Option::None",):
+                    none = True
+                elif a[0] == "agg" and a[1] in ("std::option::Option::Some", "std::result::Result::Ok") and len(a[2]) == 1:
+                    some |= set(a[2][0])
+                elif a[0] == "through" and a[1] in ("Some", "Ok"):
+                    some.add(strip_through(a))
+                elif a[0] == "through":
+                    none = True
+                else:
+                    some.add(a)
+                    unknown = True
+            out |= expand_defaults(some)
+            if none or unknown or not some:
+                out |= expand_defaults(set(t[2][1]))
+        else:
+            out.add(t)
+    return out
+
+
+def results_by_kind(body, lib, kinds_of, max_steps=4000, extra_call=None):
     """Every value the body can return when the values named by the terms in `kinds_of` ({term: kind}) have those kinds —
     however the kinds are inspected (match on the value, accessor case analysis, is_x()) and wherever the result is wrapped
     (per arm, or once after the case analysis): the provenance of the result is taken along each feasible path."""
@@ -239,6 +268,8 @@ def results_by_kind(body, lib, kinds_of, max_steps=4000):
             ps = {kinds_of.get(y) for y in t[2][0]}
             if len(ps) == 1 and None not in ps:
                 return int(IS[name[len(V):]] == next(iter(ps)))
+        if extra_call is not None:
+            return extra_call(t, argvals)
         return None
 
     w = Walker(body, Origins(body, lib), atom=atom, call=call, max_steps=max_steps)
